@@ -27,20 +27,20 @@ EXTRACT = {
 CFG = {
     "level": "proof",
     "level_text": "Lean 4 theorems over an executable model that follows src/trees/bp.rs. PROVED, for |ws| = ceil(len/64), any "
-                  "stray bits, owned/borrowed storage, NoSelect/WithSelect/WithCsPoppy at any rate: byte_tables_eq (4 dumped "
-                  "tables = bit scans); rank1_eq, rank0_eq (len < 2^32; u32 block ranks and 9-bit packed offsets lossless from "
-                  "WORDS_PER_RANK_BLOCK = 8), excess_eq_wrap / excess_eq, depth_eq (i32-as-usize cast modelled; len < 2^31), "
-                  "is_open_eq, first_child_eq, method_find_open_eq, method_enclose_eq (+parent) for scalar and SSE4.1 builders; "
-                  "free functions find_close_eq (word skipping), find_open_eq, enclose_eq; block_min_sound; word_summaries_exact "
-                  "and index_exact (L0/L1/L2 entries = block summaries; i8 clamp, i16 and i32 folds lossless from FACTOR_L1 = "
-                  "FACTOR_L2 = 32); find_close_in_word_fast_eq (byte-table fast path); find_close_from_eq (seven-state loop: "
-                  "invariant + termination measure), method_find_close_eq, next_sibling_subtree_size_eq for the scalar builders "
-                  "(len < 2^31); storage_strays_variant_irrelevant; select0_eq (+ total_ones) for every variant. PARTIAL / NOT PROVED: SSE4.1 builders = scalar builders "
-                  "(simd_reduces_to_scalar_partial reduces the simd-build find_close family to that missing lemma; the lane "
-                  "model is executed and compared with the scalar model and with the simd harness build on every request); "
-                  "select1 for WithSelect / WithCsPoppy (select1_noselect_partial only; select0_eq and total_ones are proved) - modelled and compared with "
-                  "the spec by the driver, not proved. Tie: tables and constants regenerated each run, every constructor x select "
-                  "support x build variant diffed against the compiled model, itself cross-checked against the linear-scan spec.",
+                  "stray bits, owned/borrowed storage, NoSelect/WithSelect/WithCsPoppy at any rate, default and simd builds: "
+                  "byte_tables_eq (4 dumped tables = bit scans); rank1_eq, rank0_eq, select0_eq (+ total_ones) (len < 2^32; u32 "
+                  "block ranks and 9-bit packed offsets lossless from WORDS_PER_RANK_BLOCK = 8), excess_eq_wrap / excess_eq, "
+                  "depth_eq (i32-as-usize cast modelled; len < 2^31), is_open_eq, first_child_eq, method_find_open_eq, "
+                  "method_enclose_eq (+parent), find_close_family_eq (method find_close, next_sibling, subtree_size), "
+                  "find_close_from_eq (seven-state loop: invariant + termination measure), find_close_in_word_fast_eq (byte-table "
+                  "fast path), index_exact and word_summaries_exact (L0/L1/L2 entries = block summaries; i8 clamp, i16/i32 folds "
+                  "lossless from FACTOR_L1 = FACTOR_L2 = 32), block_min_sound, sse41_builders_eq_scalar (lane model of the SSE4.1 "
+                  "L1/L2 builders = scalar builders), storage_strays_variant_irrelevant(_2); free functions find_close_eq (word "
+                  "skipping), find_open_eq, enclose_eq. NOT PROVED: select1 for WithSelect / WithCsPoppy "
+                  "(select1_noselect_partial covers NoSelect only) - modelled (sampling loops, jump_to + scan_select, "
+                  "partition_point bracket, 9-bit offset walk) and compared with the linear-scan spec by the driver on every "
+                  "request. Tie: tables and constants regenerated each run, every constructor x select support x build variant "
+                  "diffed against the compiled model, itself cross-checked against the linear-scan spec.",
     "level_note": "Trusts Lean kernel, the table/constant extractor, popcount / select_in_word semantics (C02), the SSE4.1 "
                   "lane semantics written in Model/BP.lean, and the differential harness. NEON builders unreachable on this host.",
     "technique": "Lean 4 proof (decide +kernel for tables, induction for directory / scans) + differential correspondence vs compiled model and spec",
@@ -53,11 +53,13 @@ CFG = {
                    "SuccinctlyVerif/Proof/BPClose3.lean", "SuccinctlyVerif/Proof/BPSibling.lean", "SuccinctlyVerif/Proof/BPIndex.lean",
                    "SuccinctlyVerif/Proof/BPIndex2.lean", "SuccinctlyVerif/Proof/BPFcf.lean", "SuccinctlyVerif/Proof/BPFcf2.lean",
                    "SuccinctlyVerif/Proof/BPFcf3.lean", "SuccinctlyVerif/Proof/BPFast.lean", "SuccinctlyVerif/Proof/BPFast2.lean",
-                   "SuccinctlyVerif/Proof/BPSelect.lean", "SuccinctlyVerif/Proof/BPSelect0.lean",
+                   "SuccinctlyVerif/Proof/BPSelect.lean", "SuccinctlyVerif/Proof/BPSelect0.lean", "SuccinctlyVerif/Proof/BPSse.lean",
+                   "SuccinctlyVerif/Proof/BPSse2.lean", "SuccinctlyVerif/Proof/BPSse3.lean",
                    "SuccinctlyVerif/Model/BP.lean", "SuccinctlyVerif/Spec/BPNav.lean"],
     "required_theorems": ["SV.Props.C04.byte_tables_eq", "SV.Props.C04.rank1_eq", "SV.Props.C04.find_close_eq",
                           "SV.Props.C04.find_open_eq", "SV.Props.C04.enclose_eq", "SV.Props.C04.find_close_from_eq",
-                          "SV.Props.C04.index_exact"],
+                          "SV.Props.C04.index_exact", "SV.Props.C04.find_close_family_eq", "SV.Props.C04.select0_eq",
+                          "SV.Props.C04.sse41_builders_eq_scalar"],
     "generated": ["C04:", "tables"],
     "allow_bv_decide": False,
     "nontrivial": _c04_nontrivial,
